@@ -7,7 +7,7 @@
    (hypotheses about the gaps of the axis being refined only), one level at a time; their premises are oracle-checked. *)
 From Coq Require Import ZArith QArith Qabs Qround Qreals List Reals.
 From RV Require Import Base.QB Model.Grid Model.GridGeom Proofs.C13_Grid Proofs.C13_GridGeom Proofs.C13_GridGeomR Proofs.C13_ProbStep.
-From RV Require Import Proofs.Tie_PyLoops Gen.GenTieChain Proofs.Tie_Chain Model.ProbStepLoop Proofs.C13_ProbStepLoop.
+From RV Require Import Proofs.Tie_PyLoops Gen.GenTieChain Proofs.Tie_Chain Model.ProbStepLoop Proofs.C13_ProbStepLoop Proofs.C13_ProbStepTie.
 Import ListNotations.
 Open Scope Q_scope.
 
@@ -153,23 +153,26 @@ Theorem C13_uniform_refine_n : forall n l h r xs o, 0 < h -> l < 0 -> 0 < r -> u
 Proof. exact uniform_refine_n. Qed.
 
 (* CTMCGridGeometric (both constructors), bounds with rational common ratios l = -(h*ql^(nb-1)), r = h*qr^(nb-1):
-   whenever the code's guards (nb >= 2, l < -h, h < r) let it return, the axis is admissible, origin index nb, 2nb+1 states,
-   end points (l, r); the guards hold exactly when both ratios exceed 1 *)
+   whenever the code's guards (nb >= 2, h > 0, l < -h, h < r) let it return, the axis is admissible, origin index nb, 2nb+1 states,
+   end points (l, r); the guards hold exactly when h > 0 and both ratios exceed 1.
+   Wave 7 (audit 4, D4 = finding F-C13-7): `h > 0` is a guard of the REPAIRED constructors (/repo branch fix-w7-c13); before the
+   repair h <= 0 was accepted (h = -1, bounds (-5, 3), nb = 3: axis [-5, nan, 1, 0, -1, nan, 3]).  The model follows the repaired
+   code, so NO hypothesis on the argument h is left in the `returns => well formed` theorems: 0 < h is a conclusion. *)
 Theorem C13_geometric_admissible : forall h ql qr nb xs o,
-  0 < h -> 0 < ql -> 0 < qr -> geometric_axis h ql qr nb = Some (xs, o) ->
+  0 < ql -> 0 < qr -> geometric_axis h ql qr nb = Some (xs, o) ->
   admissible xs o h /\ headq xs == geom_l h ql nb /\ lastq xs == geom_r h qr nb
-  /\ o = nb /\ length xs = (2 * nb + 1)%nat /\ 1 < ql /\ 1 < qr.
+  /\ o = nb /\ length xs = (2 * nb + 1)%nat /\ 1 < ql /\ 1 < qr /\ 0 < h.
 Proof. exact geometric_admissible. Qed.
 Theorem C13_geometric_guards_suffice : forall h ql qr nb,
   0 < h -> 1 < ql -> 1 < qr -> (2 <= nb)%nat -> exists xs, geometric_axis h ql qr nb = Some (xs, nb).
 Proof. exact geometric_guards_suffice. Qed.
 Theorem C13_geometric_grid_wf : forall h ql qr nb dim g,
-  0 < h -> 0 < ql -> 0 < qr -> geometric_grid h ql qr nb dim = Some g ->
+  0 < ql -> 0 < qr -> geometric_grid h ql qr nb dim = Some g ->
   grid_wf g /\ g_o g = nb /\ g_h g = h /\ length (g_axes g) = dim
   /\ Forall (fun t => fst t == geom_l h ql nb /\ snd t == geom_r h qr nb) (g_trunc g).
 Proof. exact geometric_grid_wf. Qed.
 Theorem C13_geometric_refine_n : forall n h ql qr nb xs o,
-  0 < h -> 0 < ql -> 0 < qr -> geometric_axis h ql qr nb = Some (xs, o) ->
+  0 < ql -> 0 < qr -> geometric_axis h ql qr nb = Some (xs, o) ->
   admissible (refine_axis_n amid n xs) (2 ^ n * nb) (h / inject_Z (2 ^ Z.of_nat n))
   /\ (forall i, (i < 2 * nb + 1)%nat -> nthq (refine_axis_n amid n xs) (2 ^ n * i) = nthq xs i)
   /\ length (refine_axis_n amid n xs) = (2 ^ n * (2 * nb) + 1)%nat
@@ -190,16 +193,22 @@ Theorem C13_assembly_admissible_R : forall left right h,
   let '(xs, o) := assembleR left right in
   admissibleR xs o h /\ headr xs = headr left /\ lastr xs = lastr right /\ o = length left.
 Proof. exact assembly_admissible_R. Qed.
-(* CTMCGridGeometric for EVERY real l, h, r and every nb *)
+(* CTMCGridGeometric for EVERY real l, h, r and every nb (no hypothesis: the four guards are conclusions) *)
 Theorem C13_geometric_admissible_R : forall l h r nb xs o,
-  0 < h -> geometric_axis_R l h r nb = Some (xs, o) ->
-  admissibleR xs o h /\ headr xs = l /\ lastr xs = r /\ o = nb /\ length xs = (2 * nb + 1)%nat.
+  geometric_axis_R l h r nb = Some (xs, o) ->
+  admissibleR xs o h /\ headr xs = l /\ lastr xs = r /\ o = nb /\ length xs = (2 * nb + 1)%nat
+  /\ 0 < h /\ l < - h /\ h < r /\ (2 <= nb)%nat.
 Proof. exact geometric_admissible_R. Qed.
+(* the four guards suffice (wave 7: 0 < h added -- audit 4, D4: without it the statement was true of the old model only, the code
+   returned nan states) and each of them is necessary: the constructor refuses exactly when one of them fails *)
 Theorem C13_geometric_guards_suffice_R : forall l h r nb,
-  (2 <= nb)%nat -> l < - h -> h < r -> exists xs, geometric_axis_R l h r nb = Some (xs, nb).
+  (2 <= nb)%nat -> 0 < h -> l < - h -> h < r -> exists xs, geometric_axis_R l h r nb = Some (xs, nb).
 Proof. exact geometric_guards_suffice_R. Qed.
+Theorem C13_geometric_rejects_R : forall l h r nb,
+  (nb < 2)%nat \/ h <= 0 \/ - h <= l \/ r <= h -> geometric_axis_R l h r nb = None.
+Proof. exact geometric_rejects_R. Qed.
 (* the rational-ratio Q model is the R model, state by state *)
-Theorem C13_geometric_axis_Q2R : forall h ql qr nb xs o, (0 < h)%Q -> (0 < ql)%Q -> (0 < qr)%Q ->
+Theorem C13_geometric_axis_Q2R : forall h ql qr nb xs o, (0 < ql)%Q -> (0 < qr)%Q ->
   geometric_axis h ql qr nb = Some (xs, o) ->
   exists ys, geometric_axis_R (Q2R (geom_l h ql nb)) (Q2R h) (Q2R (geom_r h qr nb)) nb = Some (ys, o)
              /\ length ys = length xs /\ forall i, (i < length xs)%nat -> Q2R (nthq xs i) = nthr ys i.
@@ -216,7 +225,7 @@ Theorem C13_refine_n_R : forall n xs o h, admissibleR xs o h ->
   /\ headr (refineR_n n xs) = headr xs /\ lastr (refineR_n n xs) = lastr xs.
 Proof. exact refineR_n_nests. Qed.
 Theorem C13_geometric_refine_n_R : forall n l h r nb xs o,
-  0 < h -> geometric_axis_R l h r nb = Some (xs, o) ->
+  geometric_axis_R l h r nb = Some (xs, o) ->
   admissibleR (refineR_n n xs) (2 ^ n * nb) (h / 2 ^ n)
   /\ (forall i, (i < 2 * nb + 1)%nat -> nthr (refineR_n n xs) (2 ^ n * i) = nthr xs i)
   /\ length (refineR_n n xs) = (2 ^ n * (2 * nb) + 1)%nat
@@ -226,13 +235,15 @@ Open Scope Q_scope.
 
 (* non-vacuity of the wave-5 theorems: a geometric axis with ratios 2 and 3/2 (h = 1/4, nb = 3), its grid in dimension 2,
    two refinements; a uniform axis with l = -1, h = 1/4, r = 5/4 (int(|l|/h) = 4, int(r/h) = 5) and its grid; rejected
-   arguments (nb = 1; ratio 1); over R: l = -2, h = 1/4, r = 3, nb = 4 *)
+   arguments (nb = 1; ratio 1; wave 7: h = -1/4 and h = 0, also with ratios < 1 for which l < -h and h < r hold);
+   over R: l = -2, h = 1/4, r = 3, nb = 4; rejected over R: the audit's witness h = -1, (l, r) = (-5, 3), nb = 3, and h = 0 *)
 Example C13_geom_nonvacuous :
   geometric_axis (1#4) 2 (3#2) 3 = Some ([-((1#4)*(2*(2*1))); -((1#4)*(2*1)); -((1#4)*1); 0; (1#4)*1; (1#4)*((3#2)*1); (1#4)*((3#2)*((3#2)*1))], 3%nat)
   /\ admissibleb (fst (assemble (geom_left (1#4) 2 3) (geomq (1#4) (3#2) 3))) 3 (1#4) = true
   /\ admissibleb (refine_axis_n amid 2 (fst (assemble (geom_left (1#4) 2 3) (geomq (1#4) (3#2) 3)))) 12 (1#16) = true
   /\ (exists g, geometric_grid (1#4) 2 (3#2) 3 2 = Some g /\ length (g_axes g) = 2%nat)
   /\ geometric_axis (1#4) 2 (3#2) 1 = None /\ geometric_axis (1#4) 1 (3#2) 3 = None
+  /\ geometric_axis (-(1#4)) 2 (3#2) 3 = None /\ geometric_axis 0 2 (3#2) 3 = None /\ geometric_axis (-(1#4)) (1#2) (1#2) 3 = None
   /\ (exists xs, uniform_axis (-1) (1#4) (5#4) = Some (xs, 4%nat) /\ admissibleb xs 4 (1#4) = true /\ length xs = 10%nat)
   /\ (exists g, uniform_grid (-1) (1#4) (5#4) 3 = Some g /\ length (g_axes g) = 3%nat).
 Proof. vm_compute. repeat split; eexists; repeat split; reflexivity. Qed.
@@ -240,21 +251,28 @@ Example C13_geom_R_nonvacuous : exists xs, geometric_axis_R (-2) (1 / 4) 3 4 = S
   /\ admissibleR xs 4 (1 / 4) /\ length xs = 9%nat /\ headr xs = (-2)%R /\ lastr xs = 3%R
   /\ admissibleR (refineR_n 3 xs) 32 (1 / 4 / 2 ^ 3) /\ same_sign_lt (-2) (- (1 / 4)) /\ same_sign_lt (1 / 4) 3.
 Proof. exact geometric_R_example. Qed.
+Example C13_geom_R_rejects_h_le_0 : geometric_axis_R (-5) (-1) 3 3 = None /\ geometric_axis_R (-5) 0 3 3 = None.
+Proof. exact geometric_R_rejects_example. Qed.
 
-(* CTMCGridProbabilityStep, right half axis while the tail is not exhausted, under the SPECIFICATION of the root finder
+(* SPECIFICATION COROLLARIES (wave 7, audit 4 B6: relabelled `_spec`).  C13_probstep_gaps_spec is the root finder's specification
+   applied twice per step (F (root (root x (p/2)) (p/2)) - F x = p follows from root_spec alone in four lines) plus an induction over
+   the n steps and strictness; it says what the specification of brentq + quadrature would give, it does not say that the code meets
+   that specification.  The loop's exit test, bare except, extrapolated states and last_point are NOT in these two statements; they are
+   in the loop model (C13_probstep_right_shape / _left_shape below), and C13_probstep_loop_regular_is_ps_axis links the two models.
+   CTMCGridProbabilityStep, right half axis while the tail is not exhausted, under the SPECIFICATION of the root finder
    (F = cumulative jump probability, strictly increasing; M = the probability available on this side; root x p = the point with
    F(root x p) - F x = p, REQUIRED ONLY WHILE F x + p <= M -- a real jump law is bounded; neither brentq nor the quadrature is
    modelled): the axis x, x1, x2, ... built by `middle_point = root(start, p/2); start' = root(middle_point, p/2)`, n steps with
    F x + n*p <= M, is strictly increasing and EVERY gap carries exactly the requested probability p; refining it with the grid's
    own middle (the equal-probability point) yields the probability-step axis of step p/2: each refined gap carries p/2 *)
 Open Scope R_scope.
-Theorem C13_probstep_gaps : forall (F : R -> R) (root : R -> R -> R) (M : R),
+Theorem C13_probstep_gaps_spec : forall (F : R -> R) (root : R -> R -> R) (M : R),
   (forall x y, x < y -> F x < F y) -> (forall x p, 0 < p -> F x + p <= M -> F (root x p) - F x = p) ->
   forall x p n, 0 < p -> F x + INR n * p <= M ->
   incrR (ps_axis root x p n) /\ length (ps_axis root x p n) = S n /\ nthr (ps_axis root x p n) 0 = x
   /\ forall i, (i < n)%nat -> F (nthr (ps_axis root x p n) (i + 1)) - F (nthr (ps_axis root x p n) i) = p.
 Proof. exact probstep_gaps. Qed.
-Theorem C13_probstep_refine : forall (F : R -> R) (root : R -> R -> R) (M : R),
+Theorem C13_probstep_refine_spec : forall (F : R -> R) (root : R -> R -> R) (M : R),
   (forall x y, x < y -> F x < F y) -> (forall x p, 0 < p -> F x + p <= M -> F (root x p) - F x = p) ->
   forall x p n, 0 < p -> F x + INR n * p <= M ->
   refineG (ps_middle F root) (ps_axis root x p n) = ps_axis root x (p / 2) (2 * n)
@@ -353,6 +371,25 @@ Example C13_probstep_shape_nonvacuous :
      = Some (rev [-(4 # 1); -(109 # 16)] ++ rev [-(19 # 16)] ++ [-(1 # 4)]).
 Proof. exact lin_shape_example. Qed.
 
+(* ================================================================================================ wave 7 (audit 4, B6 / A7)
+   `ps_axis` -- the axis of the two specification corollaries -- is the regular part of the loop model's output: for ANY real root function
+   rootR that agrees with the loop's root oracle on the searches the loop performs (rootR (Q2R x) (p/2) = Q2R y whenever root x = Some y),
+   compute_right_axis returns (h :: reg) ++ ext with  map Q2R (h :: reg) = ps_axis rootR (Q2R h) p (length reg)  and ext the k >= 1
+   extrapolated states of constant spacing 2d.  The loop model is compared with the code state by state (probloop_tab / probloop_lin);
+   ps_axis itself is ALSO compared with the code directly (interval lemmas, case group ps_axis: constant-density and HEM closed-form
+   roots).  Right half axis only: ps_axis has no left twin. *)
+Theorem C13_probstep_loop_regular_is_ps_axis : forall (exhausted : Q -> bool) (root : Q -> option Q) (rootR : R -> R -> R) (p : R),
+  (forall x y, root x = Some y -> x < y) -> (forall x x', root x = None -> x <= x' -> root x' = None) ->
+  (forall x y, root x = Some y -> rootR (Q2R x) (p / 2)%R = Q2R y) ->
+  forall fuel h axis, 0 < h -> compute_right_axis exhausted root fuel h = Some axis ->
+  exists reg ext d, axis = (h :: reg) ++ ext /\ map Q2R (h :: reg) = ps_axis rootR (Q2R h) p (length reg)
+                    /\ ext <> [] /\ 0 < d /\ gaps_w (2 * d) (lastq (h :: reg) :: ext).
+Proof. exact right_axis_regular_is_ps_axis. Qed.
+Example C13_probstep_tie_nonvacuous :
+  (forall x y, lin_root_r (15 # 32) 2 x = Some y -> (fun a q => a + q * (15 / 4))%R (Q2R x) ((1 / 4) / 2)%R = Q2R y)
+  /\ ps_axis (fun a q => a + q * (15 / 4))%R (Q2R (1 # 4)) (1 / 4) 1 = [Q2R (1 # 4); (Q2R (1 # 4) + 1 / 4 / 2 * (15 / 4) + 1 / 4 / 2 * (15 / 4))%R].
+Proof. exact ps_tie_example. Qed.
+
 Print Assumptions C13_assembly_admissible.
 Print Assumptions C13_fixed_admissible.
 Print Assumptions C13_fixed_axis.
@@ -379,14 +416,16 @@ Print Assumptions C13_geomspace_R_axis.
 Print Assumptions C13_assembly_admissible_R.
 Print Assumptions C13_geometric_admissible_R.
 Print Assumptions C13_geometric_guards_suffice_R.
+Print Assumptions C13_geometric_rejects_R.
 Print Assumptions C13_geometric_axis_Q2R.
 Print Assumptions C13_refine_step_R.
 Print Assumptions C13_refine_n_R.
 Print Assumptions C13_geometric_refine_n_R.
 Print Assumptions C13_geom_nonvacuous.
 Print Assumptions C13_geom_R_nonvacuous.
-Print Assumptions C13_probstep_gaps.
-Print Assumptions C13_probstep_refine.
+Print Assumptions C13_geom_R_rejects_h_le_0.
+Print Assumptions C13_probstep_gaps_spec.
+Print Assumptions C13_probstep_refine_spec.
 Print Assumptions C13_probstep_nonvacuous.
 Print Assumptions C13_gen_left_point_is_model.
 Print Assumptions C13_gen_right_point_is_model.
@@ -399,3 +438,5 @@ Print Assumptions C13_probstep_loop_nonvacuous.
 Print Assumptions C13_probstep_right_shape.
 Print Assumptions C13_probstep_left_shape.
 Print Assumptions C13_probstep_shape_nonvacuous.
+Print Assumptions C13_probstep_loop_regular_is_ps_axis.
+Print Assumptions C13_probstep_tie_nonvacuous.
